@@ -8,8 +8,14 @@
    theorems are about.  No proofs of properties live here.
 
    Semantics notes (what is modelled, fail-closed otherwise):
-   - values: unbounded ints, bools, None, opaque strings/floats (interned tokens),
-     tuples, lists, dicts (association lists), objects of translated classes.
+   - values: unbounded ints, bools, None, opaque strings (interned tokens), floats as exact
+     rationals (VQ: every finite float64 is a rational; comparisons are exact) and NaN (VNaN),
+     tuples, lists, dicts (association lists), objects of translated classes.  Float
+     arithmetic is not modelled except int / int, which goes through the function table
+     ("$truediv": the rounding of the quotient is a parameter, see truediv_fn).
+   - objects are values; identity of objects (x in list, for a class without __eq__) is
+     structural equality, so a client that needs identity gives each object a distinguishing
+     field (coq/translated/TVM_C17.v: the row index).
    - lists are values: [x.append(v)] rebinds x; the translator rejects programs in which
      two names could alias one mutable list, and calls write mutated parameters back
      into the argument l-values (see SCall).
@@ -20,7 +26,7 @@
      interpreter does not model is [Err 96] (never confused with a Python exception),
      running out of loop fuel is [Err 98]. *)
 From HV Require Import Prelude.
-From Coq Require Import String.
+From Coq Require Import String QArith Qabs.
 Open Scope Z_scope.
 
 Definition E_Unsupported : Z := 96.
@@ -37,7 +43,9 @@ Inductive val :=
 | VObj (cls : Z) (fs : list val)
 | VUnbound
 | VNumStr (z : Z)               (* the decimal string of an integer ("12"): equal only to itself; int() converts *)
-| VDDict (l : list (val * val)).  (* collections.defaultdict(list): a missing key reads as [] *)
+| VDDict (l : list (val * val))   (* collections.defaultdict(list): a missing key reads as [] *)
+| VQ (q : Q)                    (* a finite float, by its exact value *)
+| VNaN.                         (* float nan: every ordered comparison and == is False *)
 
 Section ValEq.
   Variable veq : val -> val -> bool.
@@ -69,6 +77,8 @@ Fixpoint val_eqb (a b : val) {struct a} : bool :=
   | VUnbound, VUnbound => true
   | VNumStr x, VNumStr y => x =? y
   | VDDict x, VDDict y => vdict_eqb val_eqb x y
+  | VQ x, VQ y => Qeq_bool x y
+  | VNaN, VNaN => true
   | _, _ => false
   end.
 
@@ -76,6 +86,16 @@ Definition as_num (v : val) : option Z :=
   match v with
   | VInt z => Some z
   | VBool b => Some (if b then 1 else 0)
+  | _ => None
+  end.
+
+(* a number as a float operand: Some None = NaN; ints and bools by their exact value *)
+Definition as_flt (v : val) : option (option Q) :=
+  match v with
+  | VQ q => Some (Some q)
+  | VNaN => Some None
+  | VInt z => Some (Some (inject_Z z))
+  | VBool b => Some (Some (inject_Z (if b then 1 else 0)))
   | _ => None
   end.
 
@@ -91,6 +111,8 @@ Fixpoint py_eq (a b : val) {struct a} : bool :=
     | VList x, VList y => vlist_eqb py_eq x y
     | VObj c x, VObj d y => (c =? d) && vlist_eqb val_eqb x y
     | VNumStr x, VNumStr y => x =? y
+    | VQ x, _ => match as_flt b with Some (Some y) => Qeq_bool x y | _ => false end
+    | _, VQ y => match as_flt a with Some (Some x) => Qeq_bool x y | _ => false end
     | _, _ => false
     end
   end.
@@ -108,6 +130,8 @@ Definition truthy (v : val) : option bool :=
   | VUnbound => None
   | VNumStr _ => Some true
   | VDDict l => Some (match l with [] => false | _ => true end)
+  | VQ q => Some (negb (Qeq_bool q 0))
+  | VNaN => Some true
   end.
 
 Inductive binop := Add | Sub | Mul | FloorDiv | Mod.
@@ -136,7 +160,10 @@ Inductive expr :=
 | ECall (f : string) (args : list expr)    (* call of a translated function that mutates no parameter *)
 | EIndexOf (a x : expr)                   (* a.index(x): first position equal to x, ValueError if absent *)
 | EToInt (a : expr)                       (* int(a) for an int or the decimal string of an int *)
-| EAsArray (lo hi : option Z) (a : expr). (* np.asarray(a, dtype): the list itself; every element must fit the dtype *)
+| EAsArray (lo hi : option Z) (a : expr)  (* np.asarray(a, dtype): the list itself; every element must fit the dtype *)
+| EFloat (q : Q)                          (* a float literal, by its exact value *)
+| EAbs (a : expr)                         (* abs(a) *)
+| EIn (neg : bool) (x l : expr).          (* x in l / x not in l for a list or tuple l: some element is == x *)
 
 Inductive lval := LVar (x : string) | LIdx (x : string) (i : expr).
 
@@ -213,7 +240,19 @@ Definition cmp_sem (o : cmpop) (a b : val) : res val :=
         Ok (VBool (match o with
                    | CLt => x <? y | CLe => x <=? y | CGt => y <? x | CGe => y <=? x
                    | _ => false end))
-    | _, _ => Err E_Unsupported
+    | _, _ =>
+        (* a float operand: exact comparison of the values; anything with NaN is False *)
+        match as_flt a, as_flt b with
+        | Some x, Some y =>
+            Ok (VBool (match x, y with
+                       | Some p, Some q =>
+                           match o with
+                           | CLt => negb (Qle_bool q p) | CLe => Qle_bool p q
+                           | CGt => negb (Qle_bool p q) | CGe => Qle_bool q p
+                           | _ => false end
+                       | _, _ => false end))
+        | _, _ => Err E_Unsupported
+        end
     end
   end.
 
@@ -410,6 +449,20 @@ Section Interp.
           | Some l => if forallb (in_range lo hi) l then Ok (VList l) else Err E_Unsupported
           | None => Err E_Unsupported
           end)
+    | EFloat q => Ok (VQ q)
+    | EAbs a =>
+        bind (eval a en) (fun x =>
+          match x with
+          | VQ q => Ok (VQ (Qabs q))
+          | VNaN => Ok VNaN
+          | _ => match as_num x with Some z => Ok (VInt (Z.abs z)) | None => Err 4 end
+          end)
+    | EIn neg x l =>
+        bind (eval x en) (fun xv => bind (eval l en) (fun lv =>
+          match as_seq lv with
+          | None => Err E_Unsupported
+          | Some vs => Ok (VBool (xorb neg (existsb (fun y => py_eq y xv) vs)))
+          end))
     | EIndexOf a x =>
         bind (eval a en) (fun av => bind (eval x en) (fun xv =>
           match as_seq av with
@@ -669,6 +722,24 @@ Section Interp.
 End Interp.
 
 Definition ft_empty : ftable := fun _ => None.
+
+(* int / int: Python's true division returns the float nearest to the quotient.  The rounding
+   [fdiv x y] (the exact value of that float) is a parameter of the generated module; with
+   fdiv x y := x # y nothing is rounded.  ZeroDivisionError = 13. *)
+Definition truediv_fn (fdiv : Z -> Z -> Q) (args : list val) : res (val * list val) :=
+  match args with
+  | [a; b] =>
+      match as_num a, as_num b with
+      | Some x, Some y => if y =? 0 then Err 13 else Ok (VQ (fdiv x y), args)
+      | _, _ => Err E_Unsupported
+      end
+  | _ => Err 4
+  end.
+
+(* a function of the repository that is not translated: an arbitrary function of its arguments
+   that mutates none of them *)
+Definition ext_fn (g : list val -> res val) (args : list val) : res (val * list val) :=
+  bind (g args) (fun r => Ok (r, args)).
 Definition ft_add (name : string) (g : list val -> res (val * list val)) (ft : ftable) : ftable :=
   fun f => if String.eqb f name then Some g else ft f.
 
